@@ -291,7 +291,8 @@ func createURL(r *http.Request, aInfo assetsInfo, drmCfg *drm.DrmConfig) urlGenD
 	utc := q.Get("utc")
 	if utc != "" {
 		data.UTCTiming = utc
-		sb.WriteString(fmt.Sprintf("utc_%s/", utc))
+		// The form documents a comma-separated list; the URL parameter is a hyphen-separated list (SplitUTCTimings).
+		sb.WriteString(fmt.Sprintf("utc_%s/", strings.ReplaceAll(utc, ",", "-")))
 	}
 	periods := q.Get("periods")
 	if periods != "" {
